@@ -273,6 +273,10 @@ class ColumnStatHelper:
         self.compressed = False
 
     def compress(self):
+        if not self.sampled:
+            self.compressed = True
+            return
+
         merge_threshold = self.merge_threshold()
 
         reverse_compressed_sample = []
@@ -318,14 +322,22 @@ class ColumnStatHelper:
             self.max_value = max(self.max_value, other.max_value)
             self.min_value = min(self.min_value, other.min_value)
 
-        try:
-            self.merge_moments(other)
-            self.sum_of_values += other.sum_of_values
-        except TypeError:
-            self.sum_of_values = None
-            self.m2 = None
-            self.m3 = None
-            self.m4 = None
+        if self.count == 0 or other.count == 0:
+            # a side that saw no value has no mean: keep the other side's moments
+            if self.count == 0:
+                self.sum_of_values = other.sum_of_values
+                self.m2 = other.m2
+                self.m3 = other.m3
+                self.m4 = other.m4
+        else:
+            try:
+                self.merge_moments(other)
+                self.sum_of_values += other.sum_of_values
+            except TypeError:
+                self.sum_of_values = None
+                self.m2 = None
+                self.m3 = None
+                self.m4 = None
 
         self.count += other.count
 
